@@ -313,3 +313,203 @@ Theorem scope2_scope2s :
        Journey2.scope2 cf = true -> Journey2s.scope2s cf = true.
 Proof. exact Journey2s.scope2_scope2s. Qed.
 Print Assumptions scope2_scope2s.
+
+(* ---- Journey2r ---- *)
+From CiwV.Inv Require Journey2r.
+
+Theorem scope2_scope2r :
+  forall cf : State2.config,
+       Journey2.scope2 cf = true -> Journey2r.scope2r cf = true.
+Proof. exact Journey2r.scope2_scope2r. Qed.
+Print Assumptions scope2_scope2r.
+
+Theorem event_step_jrn2r :
+  forall (cf : State2.config) (an : Z -> option Z) 
+         (s s' : State2.sim) (h : list State2.rec),
+       Journey2r.scope2r cf = true ->
+       Journey2.Jrn2 cf an s h ->
+       Engine2.event_step cf s = State2.Ok (tt, s') ->
+       Journey2.Jrn2 cf (Journey2.an_step s an) s' (h ++ State2.log s').
+Proof. exact Journey2r.event_step_jrn2r. Qed.
+Print Assumptions event_step_jrn2r.
+
+Theorem run_hist_jrn2r :
+  forall cf : State2.config,
+       Journey2r.scope2r cf = true ->
+       forall (ds : list State2.draws) (s : State2.sim) 
+         (h : list State2.rec) (an : Z -> option Z) 
+         (s' : State2.sim) (h' : list State2.rec) 
+         (an' : Z -> option Z),
+       Journey2.Jrn2 cf an s h ->
+       Journey2.run_hist cf s h an ds = State2.Ok (s', h', an') ->
+       Journey2.Jrn2 cf an' s' h'.
+Proof. exact Journey2r.run_hist_jrn2r. Qed.
+Print Assumptions run_hist_jrn2r.
+
+Theorem run_many_jrn2r :
+  forall (cf : State2.config) (ds : list State2.draws) 
+         (s : State2.sim) (h : list State2.rec) (an : Z -> option Z)
+         (s' : State2.sim),
+       Journey2r.scope2r cf = true ->
+       Journey2.Jrn2 cf an s h ->
+       Codec2.run_many cf s ds = State2.Ok s' ->
+       exists (h' : list State2.rec) (an' : Z -> option Z),
+         Journey2.run_hist cf s h an ds = State2.Ok (s', h', an') /\
+         Journey2.Jrn2 cf an' s' h' /\
+         (exists t : list State2.rec, h' = h ++ t).
+Proof. exact Journey2r.run_many_jrn2r. Qed.
+Print Assumptions run_many_jrn2r.
+
+Theorem engine_journey2r :
+  forall (cf : State2.config) (ds : list State2.draws) 
+         (s : State2.sim) (h : list State2.rec) (an : Z -> option Z)
+         (s' : State2.sim) (h' : list State2.rec) 
+         (an' : Z -> option Z),
+       Journey2r.scope2r cf = true ->
+       Journey2.Jrn2 cf an s h ->
+       Journey2.run_hist cf s h an ds = State2.Ok (s', h', an') ->
+       Codec2.run_many cf s ds = State2.Ok s' /\
+       (exists t : list State2.rec, h' = h ++ t) /\
+       Journey2.Jrn2 cf an' s' h'.
+Proof. exact Journey2r.engine_journey2r. Qed.
+Print Assumptions engine_journey2r.
+
+Theorem engine_journey2r_means :
+  forall (cf : State2.config) (ds : list State2.draws) 
+         (s : State2.sim) (h : list State2.rec) (an : Z -> option Z)
+         (s' : State2.sim) (h' : list State2.rec) 
+         (an' : Z -> option Z),
+       Journey2r.scope2r cf = true ->
+       Journey2.Jrn2 cf an s h ->
+       Journey2.run_hist cf s h an ds = State2.Ok (s', h', an') ->
+       (forall (i : Z) (r : State2.rec) (l : list State2.rec),
+        Journey2.recs_of i h' = r :: l -> an' i = Some (State2.r_node r)) /\
+       (forall (i : Z) (l1 : list State2.rec) (r1 r2 : State2.rec)
+          (l2 : list State2.rec),
+        Journey2.recs_of i h' = l1 ++ r1 :: r2 :: l2 ->
+        Journey2.visit r2 /\
+        (Journey2.closing r1 /\
+         State2.r_dest r1 = Some (State2.r_node r2) /\
+         State2.r_exit r1 = State2.r_arr r2 \/
+         Journey2.cont r1 /\
+         State2.r_node r2 = State2.r_node r1 /\
+         State2.r_arr r2 = State2.r_arr r1)) /\
+       (forall r : State2.rec,
+        In r h' ->
+        ~ Journey2.visit r -> Journey2.recs_of (State2.r_id r) h' = r :: nil) /\
+       (forall (k : nat) (nd : State2.node) (i : Z),
+        nth_error (State2.nodes s') k = Some nd ->
+        In i (Engine2.all_individuals nd) ->
+        exists x : State2.ind,
+          Engine2.find_ind i (State2.inds s') = Some x /\
+          State2.i_node x = Some (Z.of_nat k + 1)%Z /\
+          State2.i_nrec x = Prelude.zlen (Journey2.recs_of i h') /\
+          (Journey2.recs_of i h' = nil /\ an' i = Some (Z.of_nat k + 1)%Z \/
+           (exists (l : list State2.rec) (r : State2.rec),
+              Journey2.recs_of i h' = l ++ r :: nil /\
+              (Journey2.closing r /\
+               State2.r_dest r = Some (Z.of_nat k + 1)%Z /\
+               State2.r_exit r = State2.i_arr x \/
+               Journey2.cont r /\
+               State2.r_node r = (Z.of_nat k + 1)%Z /\
+               State2.r_arr r = State2.i_arr x))) /\
+          (forall (l1 : list State2.rec) (r : State2.rec)
+             (l2 : list State2.rec),
+           Journey2.recs_of i h' = l1 ++ r :: l2 ->
+           Forall Journey2.cont l2 ->
+           Journey2.closing r ->
+           State2.r_dest r = Some (Z.of_nat k + 1)%Z /\
+           State2.r_exit r = State2.i_arr x /\
+           Forall
+             (fun r' : State2.rec =>
+              State2.r_node r' = (Z.of_nat k + 1)%Z /\
+              State2.r_arr r' = State2.i_arr x) l2) /\
+          (Forall Journey2.cont (Journey2.recs_of i h') ->
+           an' i = Some (Z.of_nat k + 1)%Z /\
+           Forall
+             (fun r' : State2.rec =>
+              State2.r_node r' = (Z.of_nat k + 1)%Z /\
+              State2.r_arr r' = State2.i_arr x) (Journey2.recs_of i h'))) /\
+       (forall i : Z,
+        (1 <= i <= State2.a_created (State2.arr s'))%Z ->
+        In i (State2.exit_ids s') <->
+        (exists (l : list State2.rec) (r : State2.rec),
+           Journey2.recs_of i h' = l ++ r :: nil /\
+           (State2.r_dest r = Some (-1)%Z \/
+            State2.r_type r = 3%Z \/ State2.r_type r = 4%Z))) /\
+       (forall r : State2.rec,
+        In r h' -> (State2.r_id r <= State2.a_created (State2.arr s'))%Z).
+Proof. exact Journey2r.engine_journey2r_means. Qed.
+Print Assumptions engine_journey2r_means.
+
+Theorem reroute_record_followed :
+  forall (cf : State2.config) (an : Z -> option Z) 
+         (s : State2.sim) (h : list State2.rec) (i : Z)
+         (l1 : list State2.rec) (r1 r2 : State2.rec) 
+         (l2 : list State2.rec) (d : Z),
+       Journey2.Jrn2 cf an s h ->
+       Journey2.recs_of i h = l1 ++ r1 :: r2 :: l2 ->
+       State2.r_type r1 = 1%Z ->
+       State2.r_dest r1 = Some d ->
+       Journey2.visit r2 /\
+       State2.r_node r2 = d /\ State2.r_arr r2 = State2.r_exit r1.
+Proof. exact Journey2r.reroute_record_followed. Qed.
+Print Assumptions reroute_record_followed.
+
+Theorem slotted_service_journey_partial :
+  forall (cf : State2.config) (an : Z -> option Z) 
+         (h : list State2.rec) (j : Z) (s s' : State2.sim),
+       (forall (nc : State2.ncfg) (sl : State2.slotcfg),
+        Engine2.nthZ (State2.cf_nodes cf) (j - 1) = Some nc ->
+        State2.nc_srv nc = State2.SSlot sl ->
+        (State2.sl_pre sl =? 4)%Z = false) ->
+       Journey2s.Jst an h nil s ->
+       Engine2.slotted_service cf j s = State2.Ok (tt, s') ->
+       Journey2s.Jst an h nil s' /\
+       Conserve2.WFx2 nil s' /\
+       Journey2.JH an (h ++ State2.log s') s' /\ Journey2.Lq s'.
+Proof. exact Journey2r.slotted_service_journey_partial. Qed.
+Print Assumptions slotted_service_journey_partial.
+
+Theorem jrn2_not_kept_by_preemptive_slot :
+  exists (s : State2.sim) (h : list State2.rec) 
+       (an : Z -> option Z),
+         Journey2r.scope2r (Slot2.ex_cf 1) = false /\
+         Journey2.Jrn2 (Slot2.ex_cf 1) Journey2.jx_an0 Slot2.ex_s0 nil /\
+         Journey2.run_hist (Slot2.ex_cf 1) Slot2.ex_s0 nil Journey2.jx_an0
+           (firstn 7 Slot2.ex_ds) = State2.Ok (s, h, an) /\
+         map Journey2.jx_view (Journey2.recs_of 2 h) =
+         (2%Z, 1%Z, 1%Z, Some 1%Z, Some 10%Z, None) :: nil /\
+         map State2.n_interrupted (State2.nodes s) =
+         (2%Z :: nil) :: nil :: nil /\
+         ~ Journey2.Jrn2 (Slot2.ex_cf 1) an s h /\
+         Conserve2.wfx2_b s = true /\
+         Journey2.jh_b an s h = true /\
+         Journey2.lq_b s = true /\
+         match
+           Journey2.run_hist (Slot2.ex_cf 1) Slot2.ex_s0 nil Journey2.jx_an0
+             (firstn 8 Slot2.ex_ds)
+         with
+         | State2.Ok (s8, h8, an8) =>
+             Journey2.jrn2_b (Slot2.ex_cf 1) an8 s8 h8
+         | _ => false
+         end = true.
+Proof. exact Journey2r.jrn2_not_kept_by_preemptive_slot. Qed.
+Print Assumptions jrn2_not_kept_by_preemptive_slot.
+
+(* the printed form of this statement does not re-parse (nat / Z scopes): it is the statement of Journey2r.f11a_not_a_witness, verbatim in coq/Inv/Journey2r.v *)
+Theorem f11a_not_a_witness : ltac:(let t := type of Journey2r.f11a_not_a_witness in exact t).
+Proof. exact Journey2r.f11a_not_a_witness. Qed.
+Print Assumptions f11a_not_a_witness.
+
+(* the printed form of this statement does not re-parse (nat / Z scopes): it is the statement of Journey2r.reroute_cycle_not_a_witness, verbatim in coq/Inv/Journey2r.v *)
+Theorem reroute_cycle_not_a_witness : ltac:(let t := type of Journey2r.reroute_cycle_not_a_witness in exact t).
+Proof. exact Journey2r.reroute_cycle_not_a_witness. Qed.
+Print Assumptions reroute_cycle_not_a_witness.
+
+Theorem jrn2r_b_sound :
+  forall (cf : State2.config) (an : Z -> option Z) 
+         (s : State2.sim) (h : list State2.rec),
+       Journey2r.jrn2r_b cf an s h = true -> Journey2.Jrn2 cf an s h.
+Proof. exact Journey2r.jrn2r_b_sound. Qed.
+Print Assumptions jrn2r_b_sound.
